@@ -53,6 +53,8 @@ pub assume_specification<'a, K, V, S, A, Q>[ HashMap::<K, V, S, A>::get_mut::<Q>
             None => !contains_borrowed_key(old(m)@, k) && final(m)@ == old(m)@,
         }
 ;
+// std: mem::take returns the old value (what it leaves behind - T::default() - is deliberately not specified)
+pub assume_specification<T: Default>[ core::mem::take::<T> ](dest: &mut T) -> (r: T) ensures r == *old(dest);
 #[verifier::external_body]
 fn msg() -> String { String::new() }
 // R32: the keys of a map, each exactly once (std: values_mut visits every entry once)
@@ -354,6 +356,7 @@ def build(repo):
         ('assume_specification HashSet::clone', 'std: clone of a HashSet has the same elements (vstd has no spec for it)'),
         ('assume_specification HashMap::get_mut', 'std: get_mut returns the value stored under the key and changes nothing else (vstd has no spec for it); phrased with vstd\'s borrowed-key predicates'),
         ('external_body msg()', 'rule R4: error message strings are opaque'),
+        ('assume_specification core::mem::take', 'std: returns the old value; the value left behind is not specified (as in unit ADJLIST)'),
         ('admit() in axiom_keys', 'derived Hash/Eq of TxId and EntityId are lawful (obeys_key_model), i.e. std HashMap/HashSet behave as maps/sets for these keys'),
     ]:
         u.trust(what, why)
